@@ -1183,7 +1183,7 @@ fn main() {
             h.replay_line(&l);
         }
     } else {
-        let (n_cluster, n_repl, n_task, n_misc, budget) = if args.thorough { (3_000, 2_000, 2_000, 30_000, 40) } else { (260, 160, 200, 2_500, 24) };
+        let (n_cluster, n_repl, n_task, n_misc, budget) = if args.thorough { (2_000, 1_200, 1_200, 20_000, 40) } else { (260, 160, 200, 2_500, 24) };
         h.unicode_table_sweep();
         h.case_misc(&mut rng, n_misc);
         for i in 0..n_cluster {
